@@ -49,9 +49,13 @@ inductive Proto where
   | udp | tcp
 deriving Repr, DecidableEq
 
+/-- A domain name as a Go `string` in presentation form, as miekg hands it to handlers: ASCII only
+(bytes outside the printable range are spelled `\DDD`), so bytes = characters and `len` = `length`.
+A character list rather than `String` so that the kernel can evaluate the examples. -/
+abbrev Name := List Char
+
 structure Question where
-  /-- presentation form, as miekg hands it to handlers (ASCII, escapes spelled out) -/
-  name : String
+  name : Name
   qtype : Nat
   qclass : Nat
 deriving Repr, DecidableEq
@@ -63,7 +67,7 @@ inductive RData where
 deriving Repr, DecidableEq
 
 structure RR where
-  name : String
+  name : Name
   rtype : Nat
   cls : Nat
   ttl : Nat
@@ -132,16 +136,16 @@ def handleFailed (q : Query) : Outcome :=
   .reply { setReply q with rcode := rcodeServerFailure }
 
 /-- `dns.IsFqdn` (v1.1.50): trailing dot that is not escaped (even number of backslashes before it) -/
-def isFqdn (s : String) : Bool :=
-  match s.toList.reverse with
+def isFqdn (s : Name) : Bool :=
+  match s.reverse with
   | '.' :: rest => (rest.takeWhile (· = '\\')).length % 2 = 0
   | _ => false
 
 /-- `dns.Fqdn` -/
-def fqdn (s : String) : String := if isFqdn s then s else s ++ "."
+def fqdn (s : Name) : Name := if isFqdn s then s else s ++ ['.']
 
 /-- `strings.ToLower` on the ASCII strings miekg produces -/
-def toLower (s : String) : String := s.map Char.toLower
+def toLower (s : Name) : Name := s.map Char.toLower
 
 /-! ### the handlers -/
 
@@ -150,19 +154,19 @@ def dbHandler (db : MaxAns → Query → Outcome) : Handler :=
   fun ctx q => db (ctx.maxAns.getD defaultMaxAnswer) q
 
 /-- `whoami.NewWhoami`: `wh.whoamiDomain = strings.ToLower(dns.Fqdn(d))` -/
-def newWhoami (d : String) : String := toLower (fqdn d)
+def newWhoami (d : Name) : Name := toLower (fqdn d)
 
 /-- `whoami/common.go`: `len(name) != len(domain) || strings.ToLower(name) != domain` ⇒ next -/
-def whoamiMatch (domain name : String) : Bool :=
-  !(name.utf8ByteSize != domain.utf8ByteSize || toLower name != domain)
+def whoamiMatch (domain name : Name) : Bool :=
+  !(name.length != domain.length || toLower name != domain)
 
-def whoamiHandler (domain : String) (who : Query → Outcome) (next : Handler) : Handler :=
+def whoamiHandler (domain : Name) (who : Query → Outcome) (next : Handler) : Handler :=
   fun ctx q =>
     match q.questions with
     | [] => .panic                                  -- `r.Question[0]`
     | q0 :: _ => if whoamiMatch domain q0.name then who q else next ctx q
 
-def hinfoRR (owner : String) : RR :=
+def hinfoRR (owner : Name) : RR :=
   { name := owner, rtype := typeHINFO, cls := classINET, ttl := hinfoTtl,
     rdata := .hinfo hinfoCpu hinfoOs }
 
@@ -187,7 +191,7 @@ def serveMux (h : Handler) (q : Query) : Outcome :=
 
 structure Cfg where
   /-- `ServerConfig.WhoamiDomain` (`""`: handler not installed) -/
-  whoamiDomain : String := ""
+  whoamiDomain : Name := []
   /-- `ServerConfig.RefuseANY` -/
   refuseANY : Bool := false
   /-- the listener's value in `ServerConfig.IPAns` -/
@@ -199,12 +203,12 @@ def Cfg.startable (cfg : Cfg) : Bool := 0 < cfg.maxAns
 
 /-- the domain the installed whoami handler compares with:
 `whoami.NewWhoami(strings.ToLower(dns.Fqdn(conf.WhoamiDomain)))` -/
-def Cfg.domain (cfg : Cfg) : String := newWhoami (toLower (fqdn cfg.whoamiDomain))
+def Cfg.domain (cfg : Cfg) : Name := newWhoami (toLower (fqdn cfg.whoamiDomain))
 
 /-- handlers below the per-listener ones, in the order `Start` wraps them -/
 def inner (cfg : Cfg) (who : Query → Outcome) (db : MaxAns → Query → Outcome) : Handler :=
   let h0 := dbHandler db
-  let h1 := if cfg.whoamiDomain ≠ "" then whoamiHandler cfg.domain who h0 else h0
+  let h1 := if cfg.whoamiDomain ≠ [] then whoamiHandler cfg.domain who h0 else h0
   if cfg.refuseANY then anyHandler h1 else h1
 
 /-- what a listener's `dns.Server.Handler` does with an unpacked query -/
@@ -214,13 +218,13 @@ def chain (cfg : Cfg) (who : Query → Outcome) (q : Query) (db : MaxAns → Que
 /-! ### classification of a query (used by the theorems and the driver) -/
 
 def Query.qtype? (q : Query) : Option Nat := q.questions.head?.map (·.qtype)
-def Query.name? (q : Query) : Option String := q.questions.head?.map (·.name)
+def Query.name? (q : Query) : Option Name := q.questions.head?.map (·.name)
 
 def anyRefused (cfg : Cfg) (q : Query) : Bool :=
   cfg.refuseANY && q.qtype? == some typeANY
 
 def whoamiHit (cfg : Cfg) (q : Query) : Bool :=
-  cfg.whoamiDomain != "" && (match q.name? with
+  cfg.whoamiDomain != [] && (match q.name? with
     | some n => whoamiMatch cfg.domain n
     | none => false)
 
